@@ -21,7 +21,7 @@
    the current run has been seen" and branch where the expression branches.
 
    [wf_leaves_b] is about the leaves only; ranges, nesting and order are [wf_tree_b]
-   (Spec/SyntaxSpec.v), the text between the leaves of a directive is [wf_glue_b] below.   *)
+   (Spec/SyntaxSpec.v); the keywords between the leaves are [wf_keywords_b] below.        *)
 From Coq Require Import ZArith List Bool.
 From Knut Require Import Model.Bytes Model.Utf8 Model.Scanner Model.Parser Spec.SyntaxSpec Spec.FormatSpec.
 Import ListNotations.
@@ -165,3 +165,85 @@ End Leaves.
 (* with Go's decoder (Model/Utf8.v) *)
 Definition wf_leaves_b (letter digit : Z -> bool) (t : str) (f : file) : bool :=
   wf_leaves_gen Utf8M.decode letter digit t f.
+
+(* ================================================================== keywords
+
+   The KIND of a node is justified by the text, too: between the date and the payload of a
+   directive stand blanks, the keyword of the payload's kind and blanks again (a multi-line
+   `balance` may end its line right after the keyword); a transaction's description follows the
+   date after blanks only; an include starts with `include` and blanks; a present @performance
+   starts with `@performance(` and ends with `)`; a present @accrue starts with `@accrue` and
+   blanks.  Blanks are the bytes 32, 9, 13 ([is_ws_byte]).  Keywords and blanks are ASCII, so
+   this part of the specification is about bytes.                                           *)
+
+Section Keywords.
+Variable t : str.
+
+Definition blanks_b (w : str) : bool := forallb is_ws_byte w.
+Definition blanks1_b (w : str) : bool := nonnil w && blanks_b w.
+
+Fixpoint drop_blanks (w : str) : str :=
+  match w with
+  | b :: r => if is_ws_byte b then drop_blanks r else w
+  | [] => []
+  end.
+
+Fixpoint drop_prefix (p w : str) : option str :=
+  match p with
+  | [] => Some w
+  | a :: p' => match w with
+               | b :: w' => if a =? b then drop_prefix p' w' else None
+               | [] => None
+               end
+  end.
+
+(* w = kw blank+ *)
+Definition kw_then_blanks (kw w : str) : bool :=
+  match drop_prefix kw w with Some r => blanks1_b r | None => false end.
+
+(* w = blank+ kw blank+;  with [nl] also blank+ kw blank* newline *)
+Definition kw_glue (kw : str) (nl : bool) (w : str) : bool :=
+  match w with
+  | b :: _ =>
+    is_ws_byte b &&
+    match drop_prefix kw (drop_blanks w) with
+    | Some r => blanks1_b r || (nl && match drop_blanks r with [10] => true | _ => false end)
+    | None => false
+    end
+  | [] => false
+  end.
+
+Definition kw_paren : str := kw_performance ++ [40].
+
+Definition kw_perf (p : performance) : bool :=
+  is_zero_perf p ||
+  (let s := r_start (pf_range p) in
+   let e := r_end (pf_range p) in
+   (s + zlen kw_paren + 1 <=? e) &&
+   str_eqb (slice t s (s + zlen kw_paren)) kw_paren && str_eqb (slice t (e - 1) e) [41]).
+
+Definition kw_accrual (a : accrual) : bool :=
+  is_zero_accrual a ||
+  kw_then_blanks kw_accrue (slice t (r_start (ac_range a)) (r_start (ac_interval a))).
+
+Definition kw_addons (a : addons) : bool := kw_perf (ad_perf a) && kw_accrual (ad_accrual a).
+
+Definition kw_body (b : dir_body) : bool :=
+  match b with
+  | BTrx x =>
+    blanks1_b (slice t (r_end (tx_date x)) (r_start (qs_range (tx_desc x)))) && kw_addons (tx_addons x)
+  | BOpen o => kw_glue kw_open false (slice t (r_end (op_date o)) (r_start (acc_range (op_account o))))
+  | BClose c => kw_glue kw_close false (slice t (r_end (cl_date c)) (r_start (acc_range (cl_account c))))
+  | BAssertion a =>
+    match as_balances a with
+    | b :: _ => kw_glue kw_balance true (slice t (r_end (as_date a)) (r_start (bl_range b)))
+    | [] => false
+    end
+  | BPrice p => kw_glue kw_price false (slice t (r_end (pr_date p)) (r_start (pr_commodity p)))
+  | BInclude i => kw_then_blanks kw_include (slice t (r_start (in_range i)) (r_start (qs_range (in_path i))))
+  | BNone => false
+  end.
+
+Definition wf_keywords_b (f : file) : bool := forallb (fun d => kw_body (d_body d)) (f_directives f).
+
+End Keywords.
